@@ -17,8 +17,8 @@ import (
 
 // ---- a compact text form of program trees (replay files, the probe driver, debugging)
 //   node  := kind ':' to ':' val '{' (item ';')* end '}'
-//   item  := 'ss:' slot ':' val | 'log' | 'col:' address ':' val (a creation that is refused) | node
-//   end   := 'K' (ok) | 'R' (revert) | 'F' [':' flavour] (fail) | 'S:' beneficiary (suicide)
+//   item  := 'ss:' slot ':' val | 'log' | 'j:' destination class (a jump that goes on) | 'col:' address ':' val (a creation that is refused) | node
+//   end   := 'K' (ok) | 'R' (revert) | 'F' [':' flavour] (fail; flavour 'jump:' destination class = a jump that fails) | 'S:' beneficiary (suicide)
 //            | 'T' (creation: code too big) | 'D' (creation: deposit not affordable)
 //   kind 'create': to = the address the creator makes (nU, nA, nB, nC)
 
@@ -31,6 +31,8 @@ func (n *Node) String() string {
 			fmt.Fprintf(&sb, "ss:%s:%d;", it.Slot, it.Val)
 		case "log":
 			sb.WriteString("log;")
+		case "jump":
+			sb.WriteString("j:" + it.Slot + ";")
 		case "collide":
 			fmt.Fprintf(&sb, "col:%s:%d;", it.Slot, it.Val)
 		case "call":
@@ -117,6 +119,8 @@ func (p *treeParser) node(head string) (*Node, error) {
 				n.Items = append(n.Items, &Item{Op: "sstore", Slot: f[1], Val: v})
 			case f[0] == "log":
 				n.Items = append(n.Items, &Item{Op: "log"})
+			case f[0] == "j" && len(f) == 2:
+				n.Items = append(n.Items, &Item{Op: "jump", Slot: f[1]})
 			case f[0] == "col" && len(f) == 3:
 				v, err := strconv.Atoi(f[2])
 				if err != nil {
@@ -144,7 +148,7 @@ func (p *treeParser) node(head string) (*Node, error) {
 			case "F":
 				n.End, n.Flavor = "fail", "invalid"
 				if len(f) > 1 {
-					n.Flavor = f[1]
+					n.Flavor = strings.Join(f[1:], ":")
 				}
 			case "S":
 				if len(f) != 2 {
@@ -177,6 +181,7 @@ func driveProbe(args []string) error {
 	fs := flag.NewFlagSet("callframes-probe", flag.ContinueOnError)
 	gas := fs.Uint64("gas", 0, "gas (0 = ample plan)")
 	funded := fs.String("funded", "", "created addresses that hold 1 in the base block (comma separated, e.g. nB)")
+	shapes := fs.String("shapes", "", "code shapes, e.g. A=1,nA=4 (default: pairwise different)")
 	if err := fs.Parse(args); err != nil {
 		return err
 	}
@@ -184,6 +189,16 @@ func driveProbe(args []string) error {
 	for _, n := range strings.Split(*funded, ",") {
 		if n != "" {
 			bal[n] = 1
+		}
+	}
+	shapeOf := defaultShapes()
+	for _, kv := range strings.Split(*shapes, ",") {
+		if f := strings.Split(kv, "="); len(f) == 2 {
+			v, err := strconv.Atoi(f[1])
+			if err != nil || v < 0 || v >= 2*nSlots {
+				return fmt.Errorf("bad shape %q", kv)
+			}
+			shapeOf[f[0]] = v
 		}
 	}
 	w := &world{tag: "probe"}
@@ -194,7 +209,7 @@ func driveProbe(args []string) error {
 		if err != nil {
 			return err
 		}
-		r, err := w.runTree(root, *gas, nil, bal)
+		r, err := w.runTree(root, *gas, nil, bal, shapeOf)
 		if err != nil {
 			return err
 		}
@@ -213,6 +228,7 @@ type treeGen struct {
 	funded   map[string]bool // created addresses that hold funds in the base block: creations towards them collide
 	ncreate  int
 	nburn    int // creations that burn all their gas (the plan multiplies by 64 for each in a row)
+	shape    map[string]int // the shape of the code every address holds / is created with
 }
 
 func isCreator(ctx string) bool { return len(ctx) == 1 }
@@ -230,7 +246,22 @@ func (g *treeGen) node(depth int, kind, to string, val int, ro bool, ctx string)
 	}
 	nitems := g.rng.Intn(5)
 	for i := 0; i < nitems && g.ids < 40; i++ {
-		switch x := g.rng.Intn(12); {
+		switch x := g.rng.Intn(14); {
+		case x >= 12:
+			// a jump: mostly to what is a JUMPDEST of the code this frame runs; one to what is not ends the frame
+			d := jumpDests[g.rng.Intn(len(jumpDests))]
+			if !jumpValid(g.shape[to], d) && g.rng.Intn(2) == 0 {
+				d = "next"
+			}
+			if jumpValid(g.shape[to], d) {
+				n.Items = append(n.Items, &Item{Op: "jump", Slot: d})
+			} else if kind != "create" || g.nburn < 2 {
+				if kind == "create" {
+					g.nburn++
+				}
+				n.End, n.Flavor = "fail", "jump:"+d
+				return n
+			}
 		case x < 3 && !ro:
 			n.Items = append(n.Items, &Item{Op: "sstore", Slot: slotNames[g.rng.Intn(2)], Val: g.rng.Intn(3)})
 		case x < 4 && !ro:
@@ -327,7 +358,12 @@ func driveTrees(args []string) error {
 		*num = fs.NArg()
 	}
 	for i := 0; i < *num; i++ {
-		g := &treeGen{rng: rng, maxDepth: *depth, made: map[string]bool{}, funded: map[string]bool{}}
+		g := &treeGen{rng: rng, maxDepth: *depth, made: map[string]bool{}, funded: map[string]bool{}, shape: defaultShapes()}
+		if fs.NArg() == 0 { // seeded code shapes: some addresses hold the same code, most different ones
+			for _, n := range codeNames {
+				g.shape[n] = rng.Intn(2 * nSlots)
+			}
+		}
 		bal := fullBal(initBal)
 		if fs.NArg() == 0 && rng.Intn(4) == 0 { // an address some contract would create holds funds already
 			c := createdNames[1+rng.Intn(3)]
@@ -353,10 +389,10 @@ func driveTrees(args []string) error {
 				base[c] = map[string]int{"s1": rng.Intn(3), "s2": rng.Intn(2)}
 			}
 		}
-		if err := enc.Encode(map[string]interface{}{"ev": "reset", "beh": i, "step": 0, "bal": bal, "base": fullBase(base)}); err != nil {
+		if err := enc.Encode(map[string]interface{}{"ev": "reset", "beh": i, "step": 0, "bal": bal, "base": fullBase(base), "shape": g.shape}); err != nil {
 			return err
 		}
-		fl, err := runProgram(w, root, base, bal, *seed, i)
+		fl, err := runProgram(w, root, base, bal, g.shape, *seed, i)
 		if err != nil {
 			return err
 		}
